@@ -327,7 +327,7 @@ def field_accesses(fn, record, field, dep_ok=True):
 
 
 def check_guarded(rep, rid, fn, record, field, lockfield=None, lock_id=None, entry_held=(), flow=None,
-                  exempt_reason=None):
+                  exempt_reason=None, skip=()):
     """K1: every access to record::field in fn sees its lock held.  The lock is either the sibling
     field `lockfield` of the same object (this->f  ->  this->lockfield) or the fixed id lock_id."""
     acc = field_accesses(fn, record, field)
@@ -336,6 +336,8 @@ def check_guarded(rep, rid, fn, record, field, lockfield=None, lock_id=None, ent
     flow = flow or LockFlow(fn, entry_held=entry_held)
     n = 0
     for b, i, ev, path in acc:
+        if (b, i) in skip:
+            continue
         if (b, 0) not in flow.before and b not in flow.block_in:
             continue   # unreachable block
         held = flow.held_before((b, i))
@@ -388,6 +390,33 @@ def atom_mentions(atom, path):
     return re.search(r"(?<![\w>.])" + re.escape(path) + r"(?![\w])", atom) is not None
 
 
+def implied_facts(cond, truth):
+    """Facts implied by 'cond evaluates to truth': the leaf itself, and for compound conditions the
+    operands (a||b false => both false; a&&b true => both true; !a => a flipped)."""
+    out = set()
+    e = strip(cond)
+    if not isinstance(e, dict):
+        return out
+    k = e.get("k")
+    op = e.get("op")
+    if (k == "un" and op == "!") or (k == "call" and op == "!"):
+        sub = e.get("e") if k == "un" else (e.get("recv") if e.get("recv") is not None else (e.get("args") or [None])[0])
+        return implied_facts(sub, not truth)
+    ops = None
+    if k == "bin" and op in ("&&", "||"):
+        ops = [e["l"], e["r"]]
+    if ops:
+        if (op == "||" and not truth) or (op == "&&" and truth):
+            for o in ops:
+                out |= implied_facts(o, truth)
+        atom, pos = cond_atoms(e)
+        out.add((atom, truth == pos))
+        return out
+    atom, pos = cond_atoms(e)
+    out.add((atom, truth == pos))
+    return out
+
+
 class FactFlow:
     """Forward must-analysis of branch facts: state = frozenset of (atom, truth).
     A fact is killed when a path mentioned in its atom is (re)defined, or when kill(ev, pos) says so
@@ -420,10 +449,10 @@ class FactFlow:
     def _edge(self, st, blk, label, cond):
         if cond is None or label not in ("true", "false"):
             return st
-        atom, pos = cond_atoms(cond)
-        truth = (label == "true") == pos
+        new = implied_facts(cond, label == "true")
+        atoms = {a for a, _ in new}
         # an assignment inside the condition is already accounted for by _transfer
-        return frozenset(f for f in st if f[0] != atom) | {(atom, truth)}
+        return frozenset(f for f in st if f[0] not in atoms) | frozenset(new)
 
     def _edge_raw(self, st, blk, raw):
         # switch edges: 'case C' establishes cond == C
